@@ -318,3 +318,14 @@ MANIFEST_TEXT["C16"] = dict(
          "every position and stale follows-from targets; each real storage is also compared with the single-layer run of the real code.",
     note=_CAP_NOTE + "Pass-through layers do not exist in the model (they cannot influence it); the harness runs them for real.",
     technique="Lean 4 proof (registry accounting invariant; per-layer simulation) + differential correspondence + single-layer vs stack oracle")
+
+MANIFEST_TEXT["C05"] = dict(
+    text="Theorem C05_storage_is_spec (every well-formed single-threaded program, every global level filter, every stack of layer filters): "
+         "no callback panics and the storage of every layer equals `expectedStorage`, an independent reference interpreter of tracing's "
+         "parent/scope rules over the program's own call log (no reference counting, no span extensions, no cascade): exactly the enabled "
+         "spans/events in emission order, values in recording order with in-place override, parent = nearest captured ancestor "
+         "(explicit and root parents honoured, filtered-out spans skipped) or root, enter/exit counts, follows-from edges among captured "
+         "spans in order, and the closed flag exactly when all handles are dropped, the span is not entered and all children are closed. "
+         "Proved by a reference-count invariant of the registry model and a per-call simulation. Tied to the code by dumping the whole "
+         "real storage through the public API for programs x filters and comparing with the model.",
+    note=_CAP_NOTE, technique="Lean 4 proof (registry reference-count invariant + simulation against a declarative reference) + differential correspondence")
